@@ -18,7 +18,7 @@ ASSUMPTIONS = [
 NSHARDS = {"quick": 32, "thorough": 64}
 BUDGET_S = {"quick": 200, "thorough": 1500}
 MIN_HITS = {
-    'quick': {"exh2": 32768, "exh1": 128, "grammar_accepted": 3393, "trunc_case": 22290, "prefix": 51, "encode": 300, "tx_embed": 1302},
+    'quick': {"exh2": 32768, "exh1": 128, "grammar_accepted": 3479, "trunc_case": 22346, "prefix": 51, "encode": 321, "tx_embed": 1338},
     'thorough': {"exh2": 39321, "exh1": 153, "grammar_accepted": 279132, "trunc_case": 507809, "prefix": 61, "encode": 360, "tx_embed": 102633},
 }
 
@@ -126,11 +126,21 @@ def cases(ctx):
         if (i + 5) % N == S:
             for m in sorted(set([1, max(1, d // 2), max(1, d - 1024), max(1, d - 2048), max(1, d - 4096), d])):
                 yield {"k": "nest", "depth": d, "else": bool(m & 1), "missing": m}
+    # single pushes of log-spaced lengths (windows between the classic boundaries), minimal and non-minimal form, alone and inside a conditional
+    for li, L in enumerate(sorted(set([75, 76, 255, 256, 520, 521] + [v for k_ in range(9, 18) for v in (2**k_ - 1, 2**k_, 2**k_ + 1, 3 * 2 ** (k_ - 1))] + [100000]))):
+        if li % N != S:
+            continue
+        data = gen.rbytes(r, L)
+        mp = wire.minimal_push(data)
+        nm = b"\x4e" + L.to_bytes(4, "little") + data
+        for sc in (mp, nm, b"\x63" + mp + b"\x67" + nm + b"\x68", b"\x6a" + mp + mp):
+            yield {"k": "script", "hex": sc.hex(), "tag": "log_spaced_push_length", "must_accept": True}
+        yield {"k": "encode", "hex": data.hex()} if L <= 70000 else {"k": "encode", "len": L, "seed": li}
     # never-closed conditionals BEHIND every kind of prefix (data-carrier prefixes, pushes, ordinary templates, closed blocks): the
     # prefix must not switch the nesting check off
     prefixes = [b"", b"\x00\x6a", b"\x6a", b"\x00", b"\x51\x6a", b"\x6a\x6a", b"\x00\x6a\x04abcd", b"\x76\xa9\x14" + bytes(20) + b"\x88\xac", b"\x63\x68", b"\x63\x67\x68", b"\x51\x63\x51\x68",
                 b"\x4c\x01\x63", b"\x01\x63", b"\xab", b"\x6a\x4c\x02\x63\x68", b"\x00\x00", b"\x4f\x6a", b"\x00\x6a\x00\x6a"]
-    tails = [b"\x63", b"\x64", b"\x65", b"\x66", b"\x63\x51", b"\x63\x67", b"\x63\x67\x51", b"\x63\x63\x68", b"\x63\x68\x63", b"\x64\x67\x67", b"\x63\x51\x67\x63\x68"]
+    tails = [b"\x63\x05\xaa", b"\x64\x14\x00\x00", b"\x63\x51\x67\x4b", b"\x63\x63\x68\x02\x01", b"\x63", b"\x64", b"\x65", b"\x66", b"\x63\x51", b"\x63\x67", b"\x63\x67\x51", b"\x63\x63\x68", b"\x63\x68\x63", b"\x64\x67\x67", b"\x63\x51\x67\x63\x68"]
     pi = 0
     for pre in prefixes:
         for tail in tails:
@@ -192,7 +202,10 @@ def judge_script(ctx, case, raw, lib_ok, lib_bytes, lib_tokens, via):
         if lib_ok:
             flat = wire.lib_tokens_flat(lib_tokens) if lib_tokens is not None else None
             shortened = trunc.tokens + [("push", bytes(trunc.remaining))]
-            if trunc.kind == "direct" and flat in (None, shortened) and lib_bytes == wire.detok_lenient(shortened):
+            if trunc.kind == "direct" and wire.unclosed(shortened) and wire.unclosed(shortened, (99, 100)):
+                # the tolerated short final push must not switch the nesting check off
+                ctx.viol("unclosed_conditional accepted in a script that ends in a truncated direct push (via=%s)" % via, {"input": raw.hex()[:200]})
+            elif trunc.kind == "direct" and flat in (None, shortened) and lib_bytes == wire.detok_lenient(shortened):
                 ctx.viol("truncated_direct_push accepted: final push silently shortened to the bytes that remain (via=%s)" % via, {"input": raw.hex()[:200], "reserialised": lib_bytes.hex()[:200]})
             else:
                 sym = "other"
